@@ -49,7 +49,9 @@ def write_nifti(path, raw, affine, slope=None, inter=None,
         A = np.asarray(affine, dtype=float)
         B = A.copy()
         if xforms == "both_differ":
-            B = A @ np.diag([-1.0, 1.0, 1.0, 1.0])
+            # (other axis direction, other voxel sizes - pixdim then follows
+            # the qform, not the sform - and another origin)
+            B = A @ np.diag([-1.5, 1.0, 2.0, 1.0])
             B[:3, 3] = A[:3, 3] + [7.0, -11.0, 4.5]
         h = nib.Nifti1Header()
         h.set_data_shape(raw.shape if raw.dtype != RGB_DTYPE else raw.shape)
@@ -57,7 +59,7 @@ def write_nifti(path, raw, affine, slope=None, inter=None,
         with open(plain, "r+b") as f:
             f.seek(76)
             f.write(struct.pack(e + "f", float(h["pixdim"][0])))
-            if xforms == "qform_only":
+            if xforms in ("qform_only", "both_differ"):
                 f.seek(80)
                 f.write(struct.pack(e + "3f", *[float(v) for v in
                                                 h["pixdim"][1:4]]))
